@@ -41,12 +41,29 @@
       C17_forced_vote_bypasses_lease.
    7. C17_follower_timeout_now (+ _step, _hup).
 
-   NOT PROVED (protocol level, not part of this file):
-   * "when a transfer completes in a healthy cluster the target leads a higher term holding
-     every committed entry while the old leader follows it" -- needs the cluster model P
-     (election safety + leader completeness) and a liveness argument; only its node-level
-     ingredients are here (6: the target campaigns at term+1 with a real, lease-bypassing
-     vote; 1: it had the leader's whole log when told to).
+   8. completion, "when a transfer completes in a healthy cluster the target leads a higher
+      term holding every committed entry while the old leader follows it": proved for a
+      healthy THREE-voter cluster under the deterministic lock-step full-mesh schedule
+      mesh_round (every queued message of every node delivered to its addressee, then every
+      node ticks): C17_transfer_completes / C17_transfer_completes_log (three rounds after the
+      request the target leads term+1 with log = common log ++ its no-op, the old leader and
+      the third voter are followers of term+1 that voted for it, the pending transfer is
+      cleared), from the per-node theorems, each for ALL states: C17_transfer_starts,
+      C17_target_campaigns, C17_voter_grants_forced, C17_candidate_wins,
+      C17_leader_ignores_vote_response, C17_follower_adopts_leader (the old leader records
+      the target as its leader with the first append/heartbeat, i.e. in round four).
+      Hypotheses (record Start, all explicit in C17_Start_def): three distinct voters = the
+      whole non-joint voter set, L leads with no transfer pending, T and X follow at L's
+      term, T promotable and caught up in L's progress, the three logs end at the same
+      (index, term), T has applied what is committed, priorities do not veto T, nothing in
+      flight, and no election or heartbeat timer fires during the three rounds.
+
+   NOT PROVED:
+   * completion under arbitrary (fair, asynchronous, lossy) schedules, with more than three
+     voters, with heartbeats or other traffic interleaved, or with lagging logs.  (The
+     safety half in general - whoever becomes leader holds every committed entry and is the
+     only leader of its term - is pinned at protocol level: C17_new_leader_holds_committed,
+     C17_one_leader_per_term below.)
    * expiry when further MsgTransferLeader requests keep arriving (each NEW target restarts
      the timer at 0, C17_transfer_timer_step; a repeated request for the same target does
      not), and under vote requests that claim to come from the node itself.
@@ -517,3 +534,228 @@ Theorem C17_one_leader_per_term :
     RV.P.Election.p_term (RV.P.Election.nodes s a) = RV.P.Election.p_term (RV.P.Election.nodes s b) -> a = b.
 Proof. exact RV.P.ElectionProofs.election_safety_roles. Qed.
 Print Assumptions C17_one_leader_per_term.
+
+(* ================================================================== *)
+(* 8. completion under the lock-step full-mesh schedule (proofs: M/RaftProofsC17Complete.v) *)
+From RV Require Import M.RaftProofsC17Complete.
+From RV Require M.RaftLogProofs.
+
+(* the schedule *)
+Theorem C17_mesh_round_def :
+  (forall id rs, inbox id rs = flat_map (fun s => filter (fun m => m_to m =? id) (r_msgs s)) rs) /\
+  (forall rs r, deliver rs r = msteps (r <| r_msgs := [] |>) (inbox (r_id r) rs)) /\
+  (forall r, msteps r [] = Ok r) /\
+  (forall r m t, msteps r (m :: t) = (x <- step r m ;; msteps (fst x) t)) /\
+  (forall r, tick1 r = (x <- tick r ;; Ok (fst x))) /\
+  (forall rs, mesh_round rs = (rs1 <- mmapM (deliver rs) rs ;; mmapM tick1 rs1)) /\
+  (forall rs, mesh_rounds 0 rs = Ok rs) /\
+  (forall k rs, mesh_rounds (S k) rs = (rs1 <- mesh_round rs ;; mesh_rounds k rs1)).
+Proof.
+  exact (conj (fun _ _ => eq_refl) (conj (fun _ _ => eq_refl) (conj (fun _ => eq_refl)
+        (conj (fun _ _ _ => eq_refl) (conj (fun _ => eq_refl) (conj (fun _ => eq_refl)
+        (conj (fun _ => eq_refl) (fun _ _ => eq_refl)))))))).
+Qed.
+Print Assumptions C17_mesh_round_def.
+
+(* the hypotheses of the cluster theorem, spelled out *)
+Theorem C17_Start_def :
+  forall L T X vs, Start L T X vs ->
+  (r_id L <> r_id T /\ r_id L <> r_id X /\ r_id T <> r_id X) /\
+  (NoDup vs /\ length vs = 3%nat /\ In (r_id L) vs /\ In (r_id T) vs /\ In (r_id X) vs /\
+   incoming (conf_of T) = vs /\ outgoing (conf_of T) = []) /\
+  (is_leader L = true /\ r_lead_transferee L = None /\
+   r_state T = Follower /\ r_term T = r_term L /\ r_promotable T = true /\
+   r_state X = Follower /\ r_term X = r_term L) /\
+  ((exists pr, get_pr L (r_id T) = Some pr /\ matched pr = last_index (r_log L)) /\
+   IdSet.mem (r_id T) (learners (conf_of L)) = false) /\
+  (last_index (r_log L) = last_index (r_log T) /\ last_index (r_log X) = last_index (r_log T) /\
+   last_term (r_log L) = last_term (r_log T) /\ last_term (r_log X) = last_term (r_log T) /\
+   committed (r_log T) <= applied (r_log T)) /\
+  ((r_priority L <= r_priority T)%Z /\ (r_priority X <= r_priority T)%Z) /\
+  (r_msgs L = [] /\ r_msgs T = [] /\ r_msgs X = []) /\
+  (1 < r_election_timeout L /\ r_heartbeat_elapsed L + 1 < r_heartbeat_timeout L /\
+   1 < r_election_timeout T /\ 1 < r_heartbeat_timeout T /\
+   r_election_elapsed X + 1 < r_randomized_election_timeout X /\
+   (forall d ds, r_draws L = d :: ds -> 2 < d) /\
+   (forall d ds, r_draws T = d :: ds -> 2 < d) /\
+   (forall d ds, r_draws X = d :: ds -> 2 < d)).
+Proof. exact Start_unfold. Qed.
+Print Assumptions C17_Start_def.
+
+(* --- per-node steps, each for all states --- *)
+
+(* (a) asked to transfer to a caught-up voter, the leader queues exactly one MsgTimeoutNow to
+   it and is otherwise the state "transfer to it pending, election_elapsed 0" *)
+Theorem C17_transfer_starts :
+  forall L m L' c pr,
+  is_leader L = true -> r_lead_transferee L = None ->
+  m_type m = MsgTransferLeader -> (m_term m = 0 \/ m_term m = r_term L) ->
+  m_from m <> r_id L -> get_pr L (m_from m) = Some pr ->
+  IdSet.mem (m_from m) (learners (conf_of L)) = false ->
+  matched pr = last_index (r_log L) ->
+  step L m = Ok (L', c) ->
+  exists x,
+    L' = (L <| r_election_elapsed := 0 |> <| r_lead_transferee := Some (m_from m) |>)
+           <| r_msgs := r_msgs L ++ [x] |> /\
+    m_type x = MsgTimeoutNow /\ m_to x = m_from m /\ m_term x = r_term L.
+Proof. exact transfer_starts. Qed.
+Print Assumptions C17_transfer_starts.
+
+(* (b) VoteReq id li lt t p to x: x is a MsgRequestVote to [to] from [id] at term t for a log
+   ending at (li, lt), with the transfer context and priority p *)
+Theorem C17_VoteReq_def :
+  forall id li lt t p to x, VoteReq id li lt t p to x <->
+  (m_type x = MsgRequestVote /\ m_to x = to /\ m_term x = t /\ m_from x = id /\
+   m_index x = li /\ m_log_term x = lt /\ m_context x = CAMPAIGN_TRANSFER /\ get_priority x = p).
+Proof. exact VoteReq_unfold. Qed.
+Print Assumptions C17_VoteReq_def.
+
+Theorem C17_target_campaigns :
+  forall T m T' c vs,
+  r_state T = Follower -> r_promotable T = true ->
+  m_type m = MsgTimeoutNow -> (m_term m = 0 \/ m_term m = r_term T) ->
+  committed (r_log T) <= applied (r_log T) ->
+  incoming (conf_of T) = vs -> outgoing (conf_of T) = [] ->
+  NoDup vs -> In (r_id T) vs -> length vs = 3%nat ->
+  step T m = Ok (T', c) ->
+  (conf_of T' = conf_of T /\ r_id T' = r_id T /\ r_priority T' = r_priority T /\
+   r_election_timeout T' = r_election_timeout T /\ r_heartbeat_timeout T' = r_heartbeat_timeout T /\
+   r_promotable T' = r_promotable T) /\
+  r_state T' = Candidate /\ r_term T' = r_term T + 1 /\ r_vote T' = r_id T /\
+  r_log T' = r_log T /\ t_votes (r_prs T') = [(r_id T, true)] /\
+  r_lead_transferee T' = None /\ r_election_elapsed T' = 0 /\
+  r_draws T = r_randomized_election_timeout T' :: r_draws T' /\
+  exists lt new,
+    last_term (r_log T) = Ok lt /\ r_msgs T' = r_msgs T ++ new /\
+    Forall2 (VoteReq (r_id T) (last_index (r_log T)) lt (r_term T + 1) (r_priority T))
+            (filter (fun v => negb (v =? r_id T)) vs) new.
+Proof. exact target_campaigns. Qed.
+Print Assumptions C17_target_campaigns.
+
+(* (c) in any role, whatever the lease says *)
+Theorem C17_voter_grants_forced :
+  forall V m V' c,
+  m_type m = MsgRequestVote -> m_context m = CAMPAIGN_TRANSFER -> r_term V < m_term m ->
+  is_up_to_date (r_log V) (m_index m) (m_log_term m) = Ok true ->
+  ((last_index (r_log V) <? m_index m) || (r_priority V <=? get_priority m)%Z) = true ->
+  step V m = Ok (V', c) ->
+  (conf_of V' = conf_of V /\ r_id V' = r_id V /\ r_priority V' = r_priority V /\
+   r_election_timeout V' = r_election_timeout V /\ r_heartbeat_timeout V' = r_heartbeat_timeout V /\
+   r_promotable V' = r_promotable V) /\
+  r_state V' = Follower /\ r_term V' = m_term m /\ r_vote V' = m_from m /\
+  r_log V' = set_limit (r_log V) 0 /\ r_lead_transferee V' = None /\
+  r_election_elapsed V' = 0 /\ r_leader_id V' = Progress.INVALID_ID /\
+  r_draws V = r_randomized_election_timeout V' :: r_draws V' /\
+  exists x, r_msgs V' = r_msgs V ++ [x] /\ m_type x = MsgRequestVoteResponse /\
+    m_to x = m_from m /\ m_term x = m_term m /\ m_reject x = false /\ m_from x = r_id V.
+Proof. exact voter_grants_forced. Qed.
+Print Assumptions C17_voter_grants_forced.
+
+(* (d) one grant from another voter is a quorum of three *)
+Theorem C17_candidate_wins :
+  forall T m T' c vs,
+  r_state T = Candidate -> m_type m = MsgRequestVoteResponse -> m_term m = r_term T ->
+  m_reject m = false ->
+  t_votes (r_prs T) = [(r_id T, true)] ->
+  incoming (conf_of T) = vs -> outgoing (conf_of T) = [] ->
+  NoDup vs -> In (r_id T) vs -> In (m_from m) vs -> m_from m <> r_id T -> length vs = 3%nat ->
+  step T m = Ok (T', c) ->
+  r_state T' = Leader /\ r_term T' = r_term T /\ r_id T' = r_id T /\ conf_of T' = conf_of T /\
+  r_leader_id T' = r_id T /\ r_vote T' = r_vote T /\ r_lead_transferee T' = None /\
+  r_election_elapsed T' = 0 /\ r_heartbeat_elapsed T' = 0 /\
+  r_election_timeout T' = r_election_timeout T /\ r_heartbeat_timeout T' = r_heartbeat_timeout T /\
+  exists z,
+    log_append (r_log T) (stamp [entry_default] (r_term T) (last_index (r_log T) + 1))
+      = Ok (r_log T', z).
+Proof. exact candidate_wins. Qed.
+Print Assumptions C17_candidate_wins.
+
+Theorem C17_leader_ignores_vote_response :
+  forall T m,
+  r_state T = Leader -> m_type m = MsgRequestVoteResponse -> m_term m = r_term T ->
+  step T m = Ok (T, E_OK).
+Proof. exact leader_ignores_vote_response. Qed.
+Print Assumptions C17_leader_ignores_vote_response.
+
+Theorem C17_follower_adopts_leader :
+  forall V m V' c,
+  r_state V = Follower -> (m_type m = MsgAppend \/ m_type m = MsgHeartbeat) ->
+  m_term m = r_term V -> step V m = Ok (V', c) ->
+  r_leader_id V' = m_from m /\ r_state V' = Follower /\ r_term V' = r_term V /\
+  r_vote V' = r_vote V /\ r_lead_transferee V' = r_lead_transferee V.
+Proof. exact follower_adopts_leader. Qed.
+Print Assumptions C17_follower_adopts_leader.
+
+(* the no-op a new leader appends, in C14's abstraction of the log *)
+Theorem C17_noop_append_abs :
+  forall rw l t l' z,
+  RaftLogProofs.RepInv rw l -> persisted l <= last_index l -> last_index l + 2 <= u64_max ->
+  log_append l (stamp [entry_default] t (last_index l + 1)) = Ok (l', z) ->
+  RaftLogProofs.ll_base (RaftLogProofs.abs l') = RaftLogProofs.ll_base (RaftLogProofs.abs l) /\
+  RaftLogProofs.ll_ents (RaftLogProofs.abs l') =
+    RaftLogProofs.ll_ents (RaftLogProofs.abs l) ++ [mkEntry EntryNormal t (last_index l + 1) [] []] /\
+  committed l' = committed l /\ RaftLogProofs.RepInv rw l'.
+Proof. exact noop_append_abs. Qed.
+Print Assumptions C17_noop_append_abs.
+
+(* --- the cluster theorem --- *)
+Theorem C17_transfer_completes :
+  forall L T X vs m L1 c out,
+  Start L T X vs ->
+  m_type m = MsgTransferLeader -> m_from m = r_id T -> (m_term m = 0 \/ m_term m = r_term L) ->
+  step L m = Ok (L1, c) ->
+  mesh_rounds 3 [L1; T; X] = Ok out ->
+  exists L' T' X', out = [L'; T'; X'] /\
+    r_state T' = Leader /\ r_term T' = r_term L + 1 /\ r_id T' = r_id T /\
+    r_leader_id T' = r_id T /\
+    (exists z, log_append (r_log T) (stamp [entry_default] (r_term L + 1) (last_index (r_log T) + 1))
+               = Ok (r_log T', z)) /\
+    r_state L' = Follower /\ r_term L' = r_term L + 1 /\ r_vote L' = r_id T /\
+    r_lead_transferee L' = None /\ r_id L' = r_id L /\ r_log L' = set_limit (r_log L) 0 /\
+    r_state X' = Follower /\ r_term X' = r_term L + 1 /\ r_vote X' = r_id T /\
+    r_id X' = r_id X /\ r_log X' = set_limit (r_log X) 0.
+Proof. exact transfer_completes. Qed.
+Print Assumptions C17_transfer_completes.
+
+Theorem C17_transfer_completes_log :
+  forall L T X vs m L1 c out rw,
+  Start L T X vs ->
+  m_type m = MsgTransferLeader -> m_from m = r_id T -> (m_term m = 0 \/ m_term m = r_term L) ->
+  step L m = Ok (L1, c) ->
+  mesh_rounds 3 [L1; T; X] = Ok out ->
+  RaftLogProofs.RepInv rw (r_log T) -> persisted (r_log T) <= last_index (r_log T) ->
+  last_index (r_log T) + 2 <= u64_max ->
+  RaftLogProofs.abs (r_log T) = RaftLogProofs.abs (r_log L) ->
+  exists L' T' X', out = [L'; T'; X'] /\
+    r_state T' = Leader /\ r_term T' = r_term L + 1 /\
+    RaftLogProofs.ll_base (RaftLogProofs.abs (r_log T')) = RaftLogProofs.ll_base (RaftLogProofs.abs (r_log L)) /\
+    RaftLogProofs.ll_ents (RaftLogProofs.abs (r_log T')) =
+      RaftLogProofs.ll_ents (RaftLogProofs.abs (r_log L)) ++
+      [mkEntry EntryNormal (r_term L + 1) (last_index (r_log L) + 1) [] []] /\
+    committed (r_log T') = committed (r_log T) /\
+    r_state L' = Follower /\ r_term L' = r_term L + 1 /\ r_vote L' = r_id T /\
+    r_lead_transferee L' = None.
+Proof. exact transfer_completes_log. Qed.
+Print Assumptions C17_transfer_completes_log.
+
+(* non-vacuity: voters 1 2 3 (+ learner 4), leader 1 at term 2, log [(1,t1) (2,t2)] everywhere;
+   transfer 1 -> 2.  After the request node 1 has MsgTimeoutNow queued for 2; three rounds
+   later 2 leads term 3 with the no-op at index 3 and 1, 3 follow having voted for 2; one
+   more round and both record 2 as their leader and hold index 3 *)
+Example C17_transfer_completes_example :
+  Start cx_leader cx_target cx_third [1; 2; 3] /\
+  step cx_leader cx_request = Ok (cx_after_request, E_OK) /\
+  (r_lead_transferee cx_after_request = Some 2 /\
+   map (fun x => (m_type x, m_to x)) (r_msgs cx_after_request) = [(MsgTimeoutNow, 2)]) /\
+  (exists rs, mesh_rounds 3 [cx_after_request; cx_target; cx_third] = Ok rs /\
+     map (fun r => (r_id r, r_state r, r_term r, r_vote r, r_leader_id r, r_lead_transferee r,
+                    last_index (r_log r))) rs
+     = [(1, Follower, 3, 2, 0, None, 2); (2, Leader, 3, 2, 2, None, 3); (3, Follower, 3, 2, 0, None, 2)] /\
+     map (fun r => u_entries (unst (r_log r))) rs = [[]; [mkEntry EntryNormal 3 3 [] []]; []]) /\
+  (exists rs, mesh_rounds 4 [cx_after_request; cx_target; cx_third] = Ok rs /\
+     map (fun r => (r_id r, r_state r, r_term r, r_leader_id r, last_index (r_log r))) rs
+     = [(1, Follower, 3, 2, 3); (2, Leader, 3, 2, 3); (3, Follower, 3, 2, 3)]).
+Proof.
+  split; [exact cx_start|]. split; [vm_compute; reflexivity|]. split; [vm_compute; split; reflexivity|].
+  split; eexists; (split; [vm_compute; reflexivity|]); vm_compute; repeat split.
+Qed.
